@@ -5,7 +5,7 @@ import itertools
 import os
 import random
 
-from .. import attach, core, gen, refio
+from .. import attach, core, gen, refio, faults
 from ..attach import Monitor
 from ..core import COL
 from ..shadow import Shadow
@@ -343,6 +343,7 @@ def setup(concepts, spec):
     import csv as _csv
     _csv.register_dialect('Pipes', delimiter='|', quoting=_csv.QUOTE_MINIMAL, lineterminator='\n')
     _csv.register_dialect('GermanExcel', delimiter=';', lineterminator='\r\n')
+    _csv.register_dialect('Bare', delimiter=',', quoting=_csv.QUOTE_NONE, lineterminator='\n')
     attach.attach_ctor(concepts)
     C, D = concepts.Context, concepts.Definition
     cx, df, fm = concepts.contexts, concepts.definitions, concepts.formats
@@ -471,6 +472,71 @@ def _mixcase(s, rng):
     return ''.join(ch.upper() if rng.random() < .5 else ch for ch in s)
 
 
+def _failed_io_first(concepts, ctx, rng, work, objects, properties):
+    """Exports and loads that fail *because of the environment* or are cut short, before the judged
+    round trips on the same context: a missing directory, a directory in place of the file, a full
+    device (``/dev/full``: the write fails when the file is closed), an encoding that cannot hold the
+    labels (fails half-way through the file), a file read with the wrong codec, an export aborted
+    by an injected exception.  None of these calls is judged; every export/load afterwards is."""
+    C = concepts.Context
+    for _ in range(rng.randint(1, 3)):
+        fmt = rng.choice(['table', 'cxt', 'csv', 'python-literal', 'wiki-table', 'fimi'])
+        suf = SUFFIX.get(fmt, '.txt')
+        k = rng.randrange(9)
+        try:
+            if k == 0:
+                faults.environment(lambda: ctx.tofile(os.path.join(work, 'no-such-directory', 'x' + suf), fmt))
+            elif k == 1:
+                faults.environment(lambda: ctx.tofile(work, fmt))
+            elif k == 2 and os.path.exists('/dev/full'):
+                faults.environment(lambda: ctx.tofile('/dev/full', fmt))
+            elif k == 3:
+                faults.environment(lambda: C.fromfile(os.path.join(work, 'no-such-file' + suf), fmt))
+                faults.environment(lambda: concepts.load(os.path.join(work, 'no-such-file' + suf)))
+            elif k == 4:
+                # half a file in a codec that cannot hold the labels, then the same path written properly
+                path = os.path.join(work, f'e{rng.randrange(10**6)}{suf}')
+                if not ''.join(objects + properties).isascii() and fmt in SUFFIX:
+                    call(ctx.tofile, path, fmt, 'ascii')
+                    COL.count('exports_failed_half_way_by_the_codec')
+                    if _representable(fmt, objects, properties) and call(ctx.tofile, path, fmt, 'utf-8') is not RAISED:
+                        call(C.fromfile, path, fmt, 'utf-8')
+            elif k == 5:
+                # a file read with the wrong codec first
+                path = os.path.join(work, f'w{rng.randrange(10**6)}{suf}')
+                if fmt in SUFFIX and _representable(fmt, objects, properties) \
+                        and call(ctx.tofile, path, fmt, 'utf-16') is not RAISED:
+                    call(C.fromfile, path, fmt, 'utf-8')
+                    COL.count('loads_tried_with_the_wrong_codec_first')
+                    call(C.fromfile, path, fmt, 'utf-16')
+            elif k == 6:
+                # a dialect that cannot quote: the export fails at the first label that holds the
+                # delimiter or a quote - after the rows before it were written - and is then repeated
+                # with a dialect that can
+                import csv as _csv
+                if faults.environment(lambda: ctx.tostring('csv', dialect='Bare'), (_csv.Error,)) is faults.INTERRUPTED:
+                    COL.count('csv_exports_failed_half_way_by_a_dialect_that_cannot_quote')
+                faults.environment(lambda: ctx.tofile(os.path.join(work, f'q{rng.randrange(10**6)}.csv'), 'csv', dialect='Bare'),
+                                   (_csv.Error,))
+                call(ctx.tostring, 'csv')
+            else:
+                kw = {}
+                if fmt == 'csv' and rng.random() < .5:
+                    kw = {'bools_as_int': True}
+                n = rng.choice([1, 2, 3, 5, 8, 12, 18, 27, 40, 60, 90, 140, 220])
+                exc = rng.choice([RecursionError, MemoryError, KeyboardInterrupt])
+                if faults.interrupted(lambda: ctx.tostring(fmt, **kw), n, exc) is faults.INTERRUPTED:
+                    COL.count('exports_cut_short_then_repeated')
+                call(ctx.tostring, fmt, **kw)
+        except (core.CaseTimeout, core.CaseTooLarge):
+            raise
+        except BaseException as e:
+            if not isinstance(e, Exception) and not isinstance(e, faults.Injected):
+                raise
+            COL.count('failed_io_stage_saw_' + type(e).__name__)
+    COL.count('contexts_with_failed_io_before_the_round_trips')
+
+
 def run_case(concepts, case, spec):
     if 'real' in case:
         return run_real(concepts, case, spec)
@@ -520,6 +586,8 @@ def run_case(concepts, case, spec):
         # the same context object has been printed / fingerprinted before it is written
         call(repr, ctx), call(str, ctx), call(ctx.crc32), call(ctx.tostring)
         COL.count('written_after_repr_str_crc32')
+    if (rows[-1] + 2 * n + m) % 3 == 0:
+        _failed_io_first(concepts, ctx, rng, work, objects, properties)
     for fmt, dkw, lkw in variants:
         rep = _representable(fmt, objects, properties)
         if rep and (delim or blank_edge):
